@@ -205,6 +205,8 @@ func mutate(base RawRequest, seed int, bodyRequired bool, scalarKeys []string, k
 		}
 		// the same body with an unknown length (chunked upload) or an absurd declared one
 		add("content-length-unknown", "", func(r *RawRequest) { r.ContentLength = -1 })
+		// a body of unknown length (chunked upload) that does not say what it is: the same answer as with a length
+		add("media-type-missing+length-unknown", "400|415", func(r *RawRequest) { r.Header.Del("Content-Type"); r.ContentLength = -1 })
 		add("content-length-huge", "", func(r *RawRequest) { r.ContentLength = 1 << 62 })
 		add("content-length-too-small", "", func(r *RawRequest) { r.ContentLength = 1 })
 	}
@@ -282,13 +284,36 @@ func mutate(base RawRequest, seed int, bodyRequired bool, scalarKeys []string, k
 		add("header-dropped:"+n, "", func(r *RawRequest) { r.Header.Del(n) })
 		add("header-duplicated:"+n, "", func(r *RawRequest) { r.Header[n] = append(r.Header[n], r.Header[n]...) })
 		add("header-garbage:"+n, "", func(r *RawRequest) { r.Header[n] = []string{"\x00,;=%zz\"", "=", ""} })
+		// comma-separated lists with an odd number of tokens, a lone token, a trailing comma: a flat object
+		// (name,value,name,value) that lacks its last value
+		for _, val := range []string{"r", "r,100,g", "r,100,", ",", "r=1,g", "r,,"} {
+			val := val
+			add("header-odd-tokens:"+n+"="+val, "", func(r *RawRequest) { r.Header[n] = []string{val} })
+		}
+	}
+	if base.Query != "" {
+		parts := strings.Split(base.Query, "&")
+		for i, kv := range parts {
+			k, _, ok := strings.Cut(kv, "=")
+			if !ok {
+				continue
+			}
+			for _, val := range []string{"r", "r,100,g", "r,100,", ",", "r%2C100%2Cg"} {
+				i, k, val := i, k, val
+				add("query-odd-tokens:"+k+"="+val, "", func(r *RawRequest) {
+					p2 := append([]string{}, parts...)
+					p2[i] = k + "=" + val
+					r.Query = strings.Join(p2, "&")
+				})
+			}
+		}
 	}
 	add("cookie-garbage", "", func(r *RawRequest) { r.Header.Set("Cookie", "a=;=b;;c==d; e=\"x; %zz") })
 	// every cookie the valid request carries, with its value replaced by texts whose percent-escapes are
 	// broken at different places (after a valid escape, at the very end, in the middle)
 	for _, ck := range (&http.Request{Header: base.Header}).Cookies() {
 		name := ck.Name
-		for _, val := range []string{"%41%", "%41%4", "abc%2Cdef%2", "%", "%4", "%zz", "%41%zz", "%2C%2C%", "a%", "%41%41%4"} {
+		for _, val := range []string{"%41%", "%41%4", "abc%2Cdef%2", "%", "%4", "%zz", "%41%zz", "%2C%2C%", "a%", "%41%41%4", "r", "r,100,g", "r,100,", ","} {
 			val := val
 			add("cookie-broken-escape:"+name+"="+val, "", func(r *RawRequest) {
 				var parts []string
